@@ -12,7 +12,8 @@ NEEDS = ('threads', 'proc')
 QUICK = dict(runs=2500, wall=85)
 THOROUGH = dict(runs=150000, wall=1500)
 RULE = ('child target (simulated process started through mpservice Process) emits k in {0,1,4,50,300,1200} records of size s in {20B,100B,2kB} '
-        'at mixed levels through its own (per-process) root logger, the last one immediately before it returns / raises / sys.exit()s; '
+        'at mixed levels through its own (per-process) root logger, the last one immediately before it returns / raises / sys.exit()s (also with a '
+        'return value or exception payload that cannot be pickled); '
         'parent has a recording handler and a level setting; pipe capacity in {4KiB,64KiB}; starvation-weighted scheduling of the '
         "child's queue feeder thread and the parent's logger thread; the real multiprocessing.Queue (buffer, feeder thread, exit-time "
         'join) and logging.handlers.QueueHandler run over the simulated pipe; oracle: parent handled exactly the emitted records at or '
@@ -29,7 +30,7 @@ def gen(rng, tier):
     size = rng.choice([20, 100, 2000])
     if k * size > 700_000:
         size = 100
-    sc = {'k': k, 'size': size, 'ending': rng.choice(['return', 'return', 'raise', 'exit0', 'exit3']),
+    sc = {'k': k, 'size': size, 'ending': rng.choice(['return', 'return', 'return', 'raise', 'raise', 'exit0', 'exit3', 'return_unpicklable', 'raise_unpicklable']),
           'parent_level': rng.choice(['DEBUG', 'INFO', 'WARNING']),
           'levels': [rng.choice(['DEBUG', 'INFO', 'WARNING', 'ERROR']) for _ in range(5)],
           'gap': rng.choice([0, 0, 0, 0.0001]), 'tail_sleep': rng.choice([0, 0, 0.001]), 'accessor': rng.choice(['join', 'result', 'join']),
@@ -85,6 +86,10 @@ def target(sc):
         return 'fine'
     if e == 'raise':
         raise KeyError('child failed')
+    if e == 'return_unpicklable':
+        return lambda: 1  # the value cannot be sent to the parent; the records before it still can
+    if e == 'raise_unpicklable':
+        raise ValueError('child failed', lambda: 1)
     if e == 'exit0':
         sys.exit(0)
     sys.exit(3)
